@@ -195,6 +195,10 @@ func (i *interpreter) computePure(fn *ssa.Function) bool {
 	if !flatType(fn.Signature.Results(), 0) || fn.Signature.Results().Len() == 0 {
 		return false
 	}
+	if hasLoop(fn) {
+		// loops multiply the nested paths; summarising them costs more than forking
+		return false
+	}
 	ninstr := 0
 	for _, b := range fn.Blocks {
 		for _, in := range b.Instrs {
@@ -231,7 +235,27 @@ func (i *interpreter) computePure(fn *ssa.Function) bool {
 			}
 		}
 	}
-	return ninstr <= 400
+	return ninstr <= 250
+}
+
+// hasLoop reports whether the control-flow graph of fn has a cycle.
+func hasLoop(fn *ssa.Function) bool {
+	state := make([]int8, len(fn.Blocks))
+	var dfs func(b *ssa.BasicBlock) bool
+	dfs = func(b *ssa.BasicBlock) bool {
+		state[b.Index] = 1
+		for _, s := range b.Succs {
+			if state[s.Index] == 1 {
+				return true
+			}
+			if state[s.Index] == 0 && dfs(s) {
+				return true
+			}
+		}
+		state[b.Index] = 2
+		return false
+	}
+	return len(fn.Blocks) > 0 && dfs(fn.Blocks[0])
 }
 
 func hasSymbolic(v value, depth int) bool {
@@ -285,26 +309,27 @@ func (i *interpreter) tryMergeCall(caller *frame, fn *ssa.Function, args []value
 		return nil, false
 	}
 	outer := i.path
-	root := outer
-	for root.parent != nil {
-		root = root.parent
-	}
 	mkey, memo, xkey := "", false, ""
 	if i.heapFree(fn) {
 		mkey, memo = memoKey(fn, args)
 		if memo {
-			if r, hit := root.memo[mkey]; hit {
-				i.memoHits++
-				return r, true
+			// a summary computed under a weaker path condition (this context or an enclosing
+			// one) stays valid; summaries of sibling contexts are not visible here
+			for q := outer; q != nil; q = q.parent {
+				if r, hit := q.memo[mkey]; hit {
+					i.memoHits++
+					return r, true
+				}
 			}
 			// summaries computed under exactly this path condition on an earlier (re-)execution
 			xkey = fmt.Sprintf("%s|pc%x", mkey, outer.pcHash)
 			if r, hit := i.crossMemo[xkey]; hit {
 				i.memoHits++
-				if root.memo == nil {
-					root.memo = map[string]value{}
+				i.ensureAuxFor(r)
+				if outer.memo == nil {
+					outer.memo = map[string]value{}
 				}
-				root.memo[mkey] = r
+				outer.memo[mkey] = r
 				return r, true
 			}
 		}
@@ -323,6 +348,7 @@ func (i *interpreter) tryMergeCall(caller *frame, fn *ssa.Function, args []value
 		i.path = outer
 		i.curFrame, i.depth = savedFrame, savedDepth
 		i.solver.PopTo(baseDepth)
+		i.reassertDefs()
 		if r := recover(); r != nil {
 			if _, isAbort := r.(mergeAbort); isAbort {
 				i.mergeAborts++
@@ -346,7 +372,7 @@ func (i *interpreter) tryMergeCall(caller *frame, fn *ssa.Function, args []value
 	for len(work) > 0 {
 		it := work[len(work)-1]
 		work = work[:len(work)-1]
-		if len(conds) >= 64 {
+		if len(conds) >= 24 {
 			panic(mergeAbort{"too many nested paths"})
 		}
 		sub := &pathState{
@@ -361,10 +387,12 @@ func (i *interpreter) tryMergeCall(caller *frame, fn *ssa.Function, args []value
 			parent:     outer,
 			nested:     true,
 			pcHash:     outer.pcHash,
+			aux:        outer.aux,
 		}
 		i.path = sub
 		i.solver.PopTo(baseDepth)
 		i.solver.Push()
+		i.reassertDefs()
 		var rv value
 		func() {
 			defer func() {
@@ -379,6 +407,7 @@ func (i *interpreter) tryMergeCall(caller *frame, fn *ssa.Function, args []value
 			rv = callSSAbody(i, caller, fn, args, nil)
 		}()
 		outer.steps = sub.steps
+		outer.aux = sub.aux
 		if len(sub.nondets) != len(outer.nondets) {
 			panic(mergeAbort{"callee creates nondeterministic inputs"})
 		}
@@ -396,12 +425,13 @@ func (i *interpreter) tryMergeCall(caller *frame, fn *ssa.Function, args []value
 	}
 	i.path = outer
 	i.solver.PopTo(baseDepth)
+	i.reassertDefs()
 	if len(vals) == 1 {
 		if memo {
-			if root.memo == nil {
-				root.memo = map[string]value{}
+			if outer.memo == nil {
+				outer.memo = map[string]value{}
 			}
-			root.memo[mkey] = vals[0]
+			outer.memo[mkey] = vals[0]
 			i.storeCross(xkey, vals[0])
 		}
 		return vals[0], true
@@ -413,10 +443,10 @@ func (i *interpreter) tryMergeCall(caller *frame, fn *ssa.Function, args []value
 	}
 	i.merges++
 	if memo {
-		if root.memo == nil {
-			root.memo = map[string]value{}
+		if outer.memo == nil {
+			outer.memo = map[string]value{}
 		}
-		root.memo[mkey] = merged
+		outer.memo[mkey] = merged
 		i.storeCross(xkey, merged)
 	}
 	return merged, true
